@@ -17,7 +17,9 @@ RULE = (
     "B: strings obtained from a valid TRS by 1-2 character edits (insert/delete/substitute/prefix/suffix over "
     "'0-9nsewxzXZ_ -' plus newline, tab and period); single edits on a pool are enumerated exhaustively. Non-trivial: A = a non-int "
     "encoding or a placeholder component; B = the edited string is not itself in the reference grammar but still "
-    "contains a fully numeric TRS-looking substring. Distinct = distinct canonical case encoding."
+    "contains a fully numeric TRS-looking substring; every B string is also assigned to .trs of an existing TRS and Tract and given to "
+    "TRS.trs_to_dict, and TRS(s) must compare and hash equal to TRS(TRS(s).trs). C: empty input (nothing, None, '') through 15 entry points "
+    "x 4 previous values - enumerated - must read as the undefined TRS. Distinct = distinct canonical case encoding."
 )
 ASSUMPTIONS = [
     "Reference grammar G = (\\d{1,3}[ns]|XXXz|___z)(\\d{1,3}[ew]|XXXz|___z)(\\d{2}|XX|__) is written in the harness.",
@@ -349,6 +351,79 @@ def oracle_b(c):
                                      s=s, got=obj.trs))
         if d.get("trs") != obj.trs:
             fails.append(Failure("B:trs_to_dict_differs", f"trs_to_dict({s!r})['trs']={d.get('trs')!r} vs {label}.trs={obj.trs!r}"))
+    # the same string handed to an existing object, or to the class-level converter, reads the same
+    ref = results["TRS(s)"].trs
+    a = TRS("1n1w01")
+    a.trs = s
+    b = Tract("NE/4", trs="2s2e02")
+    b.trs = s
+    for label, got in ((".trs = s on a TRS", a.trs), (".trs = s on a Tract", b.trs), ("TRS.trs_to_dict(s)", TRS.trs_to_dict(s).get("trs"))):
+        if got != ref:
+            fails.append(Failure("B:entry_points_differ", f"{label} gives {got!r}, TRS({s!r}).trs is {ref!r}", s=s))
+    # equal strings compare and hash equal, however they were arrived at
+    twin = TRS(ref)
+    first = TRS(s)
+    if not (first == twin) or (first != twin) or hash(first) != hash(twin) or not (a == twin) or hash(a) != hash(twin):
+        fails.append(Failure("B:equal_strings_unequal_objects", f"TRS({s!r}) and TRS({ref!r}) both read {ref!r} but do not compare / hash equal", s=s))
+    return fails
+
+
+# ---------------------------------------------------------------------------
+# C: empty input means 'undefined', through every entry point
+
+EMPTY_ENTRIES = ["TRS()", "TRS(None)", "TRS('')", "trs_attr_none", "trs_attr_empty", "trs_to_dict(None)", "trs_to_dict('')", "TRS.trs_to_dict(None)",
+                 "Tract_no_trs", "Tract(trs=None)", "Tract(trs='')", "tract_attr_none", "tract_attr_empty", "from_twprgesec_nothing", "set_twprgesec_nothing"]
+UNDEF = "___z___z__"
+
+
+def enum_c(tier):
+    return [{"entry": e, "before": b} for e in EMPTY_ENTRIES for b in ("154n97w14", "XXXzXXXzXX", "___z___z__", "1s1e__")]
+
+
+def oracle_c(c):
+    e, before = c["entry"], c["before"]
+    obj = None
+    if e == "TRS()":
+        obj = TRS()
+    elif e == "TRS(None)":
+        obj = TRS(None)
+    elif e == "TRS('')":
+        obj = TRS("")
+    elif e in ("trs_attr_none", "trs_attr_empty"):
+        obj = TRS(before)
+        obj.trs = None if e.endswith("none") else ""
+    elif e == "trs_to_dict(None)":
+        got = trs_to_dict(None).get("trs")
+    elif e == "trs_to_dict('')":
+        got = trs_to_dict("").get("trs")
+    elif e == "TRS.trs_to_dict(None)":
+        got = TRS.trs_to_dict(None).get("trs")
+    elif e == "Tract_no_trs":
+        obj = Tract("NE/4")
+    elif e == "Tract(trs=None)":
+        obj = Tract("NE/4", trs=None)
+    elif e == "Tract(trs='')":
+        obj = Tract("NE/4", trs="")
+    elif e in ("tract_attr_none", "tract_attr_empty"):
+        obj = Tract("NE/4", trs=before)
+        obj.trs = None if e.endswith("none") else ""
+    elif e == "from_twprgesec_nothing":
+        obj = TRS.from_twprgesec()
+    elif e == "set_twprgesec_nothing":
+        obj = TRS(before)
+        obj.set_twprgesec(None, None, None)
+    if obj is not None:
+        got = obj.trs
+    fails = []
+    if got != UNDEF:
+        fails.append(Failure("C:empty_not_undefined", f"{e} (previous value {before!r}) reads {got!r}, expected {UNDEF!r}", entry=e))
+    elif obj is not None:
+        undef = obj.trs_is_undef() if isinstance(obj, Tract) else obj.is_undef()
+        err = obj.trs_is_error() if isinstance(obj, Tract) else obj.is_error()
+        if not undef or err:
+            fails.append(Failure("C:empty_flags", f"{e}: is_undef={undef} is_error={err}", entry=e))
+        if (obj.twp, obj.rge, obj.sec, obj.twp_num, obj.sec_num) != ("___z", "___z", "__", None, None):
+            fails.append(Failure("C:empty_components", f"{e}: components {(obj.twp, obj.rge, obj.sec, obj.twp_num, obj.sec_num)}", entry=e))
     return fails
 
 
@@ -362,4 +437,6 @@ SUBS = [
         shards={"quick": 8, "thorough": 16}, essential=("near_miss", "in_grammar")),
     Sub("B_random", oracle_b, strategy=lambda tier: case_b(), nontrivial=nontrivial_b, classes=classes_b,
         n={"quick": 4000, "thorough": 60000}, shards={"quick": 4, "thorough": 16}),
+    Sub("C_empty", oracle_c, enumerate=enum_c, nontrivial=lambda c: c["before"] != UNDEF, classes=lambda c: [f"entry={c['entry']}"], exhaustive=True,
+        shards={"quick": 1, "thorough": 1}, render=lambda c: c),
 ]
